@@ -10,11 +10,15 @@ trap cleanup EXIT
 ( cd "$wt" && /venv/bin/python "$demo" >/dev/null 2>&1 ); clean=$?
 git -C "$wt" apply "$patch" || { echo "PATCH DOES NOT APPLY"; exit 3; }
 fails=$(cd "$wt" && /venv/bin/python -m pytest -q -p no:cacheprovider --timeout=900 2>&1 | grep '^FAILED' | grep -v 'test_object\|test_measure')
+# tests/test_documentation.py shares /tmp/fl/docs with concurrent runs: when it is the only failure, run it again alone
+if [ -n "$fails" ] && [ -z "$(echo "$fails" | grep -v test_documentation)" ]; then
+  fails=$(cd "$wt" && /venv/bin/python -m pytest -q -p no:cacheprovider --timeout=900 tests/test_documentation.py 2>&1 | grep '^FAILED')
+fi
 ( cd "$wt" && /venv/bin/python "$demo" >/dev/null 2>&1 ); mutated=$?
 echo "suite: $([ -z "$fails" ] && echo passes || echo "FAILS: $fails")   demo: clean=$clean mutated=$mutated"
 [ -z "$fails" ] && [ "$clean" = 0 ] && [ "$mutated" != 0 ] || { echo "MUTANT REJECTED"; exit 4; }
 for c in "$@"; do
-  out=$(cd /verif && VERIF_REPO="$wt" ./check "$c" quick 2>&1); code=$?
+  out=$(cd /verif && VERIF_REPO="$wt" VERIF_OUT="$wt/.verif-out" ./check "$c" quick 2>&1); code=$?
   echo "$c exit=$code $(echo "$out" | grep -c '^VIOLATION') violation line(s)"
   echo "$out" | grep -A1 '^VIOLATION' | grep -v '^--' | head -4 | cut -c1-230
 done
